@@ -1,7 +1,6 @@
 package main
 
 import (
-	"os"
 	"fmt"
 	"math"
 	"strings"
@@ -327,11 +326,6 @@ func evalC09(grid []Cfg) func(x *Ctx, in Input) {
 				for _, pv := range rs.Pivots {
 					if pv.Pending {
 						x.Hist("solo-runs-cut-short-by-the-pivot-budget", pv.Maxitr)
-						if os.Getenv("VERIF_DEBUG") != "" {
-							f, _ := os.OpenFile(os.Getenv("VERIF_DEBUG"), os.O_APPEND|os.O_CREATE|os.O_WRONLY, 0644)
-							defer f.Close()
-							fmt.Fprintf(f, "DEBUG cut-short %v th=%d solo=%+v union=%+v\n", in.E, c.TH, rs.Pivots, ru.Pivots)
-						}
 					}
 				}
 				if !rs.OK() {
